@@ -3,8 +3,10 @@
 
   Plan of the proof (all states are described extensionally, through `Tree.get`, together with `TInv`):
 
-  * `ensureAll` only creates the missing new directories and (re)creates the new symlinks; the result `t₁`
-    has `t₁.get q = dir` for new dirs, the new symlink for new symlink paths and `t₀.get q` elsewhere.
+  * `ensureDirs` only creates the missing new directories; the result `t₁` has `t₁.get q = dir` for new dirs
+    and `t₀.get q` elsewhere.  (Since the repair of finding F27 the new symlinks are put in place after the
+    overlays, just before ghost deletion: under `NKC` each of them finds nothing or the old symlink at its
+    path, `finish_spec`.)
   * transpositions, staged moves and overlays are "file level": they only create, rewrite or remove regular
     files at places that hold nothing or a regular file (`SameNF`), so directories and symlinks stay put and
     every new file path / temporary name stays a `Slot`.  (The lemmas about the transposition phase are stated
@@ -191,7 +193,7 @@ theorem tinv_treeOfBuild {b : Build} (h : BWF b) : TInv (treeOfBuild b) := by
     · rw [h0]; exact isDir_nil _
     · exact get_dir_treeOfBuild h h0
 
-/-! ### `ensureDirsAndSymlinks` -/
+/-! ### `ensureDirs`, `ensureSymlinks` -/
 
 theorem get_nil (t : Tree) : t.get [] = some .dir := by simp [Tree.get]
 
@@ -426,14 +428,14 @@ theorem NKC.old_file {old new : Build} (hk : NKC old new) (ho : BWF old) (hn : B
   · intro h
     cases hk p _ _ (kindOf_file ho hp) (kindOf_symlink hn h)
 
-/-! ### the state after `ensureAll` -/
+/-! ### the state after `ensureDirs` -/
 
-/-- `t₁` is `t₀` with the new directories and symlinks in place. -/
+/-- `t₁` is `t₀` with the new directories in place.  (Since the repair of finding F27 the new symlinks are put
+    in place after the overlays: see `finish_spec`.) -/
 structure Ensured (new : Build) (t₀ t₁ : Tree) : Prop where
   inv : TInv t₁
   dirs : ∀ p ∈ new.dirs, t₁.get p = some .dir
-  symlinks : ∀ e ∈ new.symlinks, t₁.get e.1 = some (.symlink e.2)
-  other : ∀ q, q ∉ new.dirs → q ∉ new.symlinks.map (·.1) → t₁.get q = t₀.get q
+  other : ∀ q, q ∉ new.dirs → t₁.get q = t₀.get q
 
 theorem take_mem_dirs {b : Build} (hb : BWF b) {p : Path} (hp : p ∈ b.dirs) {j : Nat} (hj : 0 < j) :
     p.take j ∈ b.dirs := by
@@ -441,8 +443,8 @@ theorem take_mem_dirs {b : Build} (hb : BWF b) {p : Path} (hp : p ∈ b.dirs) {j
   · exact hb.parents p (mem_pathsOf.mpr (Or.inl hp)) j hj h
   · rw [List.take_of_length_le (by omega)]; exact hp
 
-theorem ensureAll_spec {old new : Build} (ho : BWF old) (hn : BWF new) (hk : NKC old new) :
-    ∃ t₁, ensureAll new (treeOfBuild old) = .ok t₁ ∧ Ensured new (treeOfBuild old) t₁ := by
+theorem ensureDirsPhase_spec {old new : Build} (ho : BWF old) (hn : BWF new) (hk : NKC old new) :
+    ∃ t₁, new.dirs.foldlM ensureDir (treeOfBuild old) = .ok t₁ ∧ Ensured new (treeOfBuild old) t₁ := by
   have hI0 := tinv_treeOfBuild ho
   have hdn0 : ∀ q, q ∈ new.dirs → DirOrNone (treeOfBuild old) q := by
     intro q hq
@@ -453,32 +455,7 @@ theorem ensureAll_spec {old new : Build} (ho : BWF old) (hn : BWF new) (hk : NKC
     (fun p hp j hj => take_mem_dirs hn hp hj)
     (fun p hp => hn.nodd (mem_pathsOf.mpr (Or.inl hp))) new.dirs (treeOfBuild old) hI0
     (fun _ h => h) hdn0
-  have hLs : ∀ e ∈ new.symlinks,
-      Plain td e.1 ∧ (td.get e.1 = none ∨ ∃ d', td.get e.1 = some (.symlink d')) := by
-    intro e he
-    have hes : e.1 ∈ new.symlinks.map (·.1) := List.mem_map.mpr ⟨e, he, rfl⟩
-    have hep : e.1 ∈ pathsOf new := mem_pathsOf.mpr (Or.inr (Or.inl hes))
-    refine ⟨⟨hn.ne hep, ?_, fun h => hn.nodd hep (mem_of_mem_dropLast h)⟩, ?_⟩
-    · rcases hn.parent_mem hep with h0 | h0
-      · rw [h0]; exact isDir_nil _
-      · exact hdd _ h0
-    · have hnd : e.1 ∉ new.dirs := fun h => hn.dir_not_symlink h hes
-      rw [hfd _ hnd]
-      by_cases hqo : e.1 ∈ pathsOf old
-      · have := hk.symlink ho hn hes hqo
-        obtain ⟨e', he', he'1⟩ := List.mem_map.mp this
-        right
-        refine ⟨e'.2, ?_⟩
-        rw [← he'1]
-        exact get_symlink_treeOfBuild ho he'
-      · exact Or.inl (get_none_treeOfBuild (hn.ne hep) hqo)
-  obtain ⟨t₁, h2, hI1, hs1, hf1⟩ := ensureSymlinks_spec new.symlinks td hId hn.symlinks_nodup hLs
-  refine ⟨t₁, by simp only [ensureAll, bind, Except.bind, h1, h2], hI1, ?_, hs1, ?_⟩
-  · intro p hp
-    rw [hf1 p (hn.dir_not_symlink hp)]
-    exact hdd p hp
-  · intro q hq1 hq2
-    rw [hf1 q hq2, hfd q hq1]
+  exact ⟨td, h1, hId, hdd, hfd⟩
 
 /-! ### file-level steps -/
 
@@ -1017,7 +994,7 @@ theorem Ensured.slot_of_newfile {old new : Build} (ho : BWF old) (hn : BWF new) 
     Slot t₁ p := by
   have hpn : p ∈ pathsOf new := mem_pathsOf.mpr (Or.inr (Or.inr hp))
   refine ⟨he.plain_of_new hn hpn, ?_⟩
-  rw [he.other p (fun h => hn.dir_not_file h hp) (fun h => hn.symlink_not_file h hp)]
+  rw [he.other p (fun h => hn.dir_not_file h hp)]
   by_cases hpo : p ∈ pathsOf old
   · obtain ⟨e, he1, he2⟩ := List.mem_map.mp (hk.file ho hn hp hpo)
     rw [← he2, get_file_treeOfBuild ho (p := e.1) (d := e.2) he1]
@@ -1025,7 +1002,7 @@ theorem Ensured.slot_of_newfile {old new : Build} (ho : BWF old) (hn : BWF new) 
   · rw [get_none_treeOfBuild (hn.ne hpn) hpo]
     rfl
 
-/-- the tree after the transposition phase, relative to the tree `t₁` after `ensureAll` -/
+/-- the tree after the transposition phase, relative to the tree `t₁` after `ensureDirs` -/
 structure Transposed (old new : Build) (w : Work) (t₁ t₂ : Tree) : Prop where
   inv : TInv t₂
   same : SameNF t₁ t₂
@@ -1036,8 +1013,9 @@ structure Transposed (old new : Build) (w : Work) (t₁ t₂ : Tree) : Prop wher
 theorem finish_spec {old new : Build} {w : Work} (ho : BWF old) (hn : BWF new) (hk : NKC old new)
     (hw : WOK old new w) {t₁ t₂ : Tree} (he : Ensured new (treeOfBuild old) t₁)
     (ht : Transposed old new w t₁ t₂) :
-    ∃ t₃ t₄ t₅, applyMoves new w t₂ = .ok t₃ ∧ applyOverlays new w t₃ = .ok t₄ ∧
-      deleteGhosts old new t₄ = .ok t₅ ∧ TInv t₅ ∧ ∀ p, t₅.get p = (treeOfBuild new).get p := by
+    ∃ t₃ t₄ t₅ t₆, applyMoves new w t₂ = .ok t₃ ∧ applyOverlays new w t₃ = .ok t₄ ∧
+      new.symlinks.foldlM (fun t (p, d) => ensureSymlink t p d) t₄ = .ok t₅ ∧
+      deleteGhosts old new t₅ = .ok t₆ ∧ TInv t₆ ∧ ∀ p, t₆.get p = (treeOfBuild new).get p := by
   have hinj := hn.filesInj
   -- staged moves
   obtain ⟨t₃, h3, hI3, hnf3, ha3, hf3⟩ := stageFold_spec hinj w.moveFiles t₂ ht.inv hw.nodupM (by
@@ -1058,95 +1036,118 @@ theorem finish_spec {old new : Build} {w : Work} (ho : BWF old) (hn : BWF new) (
     subst this
     exact hw.excl₂ i hi hj)
   have hnf14 : SameNF t₁ t₄ := (ht.same.trans hnf3).trans hnf4
-  have hpre : PreGhost old new t₄ := by
-    refine ⟨hI4, ?_, ?_, ?_, ?_⟩
+  -- outside the regular files of the two builds `t₄` is `t₁`
+  have h14 : ∀ q, q ∉ old.files.map (·.1) → q ∉ new.files.map (·.1) → t₄.get q = t₁.get q := by
+    intro q hqo hqf
+    have hnotfile : ∀ (i : Nat) (p : Path) (d : List Byte), new.files[i]? = some (p, d) → q ≠ p := by
+      intro i p d hf hqp
+      apply hqf
+      rw [hqp]
+      exact List.mem_map.mpr ⟨_, mem_files_of_getElem? hf, rfl⟩
+    rw [hf4 q (fun i _ p d hf => hnotfile i p d hf), hf3 q (fun i _ p d hf => hnotfile i p d hf),
+      ht.frame q hqo hqf]
+  -- the new files are in place
+  have hfiles4 : ∀ e ∈ new.files, t₄.get e.1 = some (.file e.2) := by
+    intro e he1
+    obtain ⟨i, hi, hie⟩ := List.mem_iff_getElem.mp he1
+    have hfi : new.files[i]? = some (e.1, e.2) := by
+      rw [List.getElem?_eq_getElem hi, hie]
+    rcases hw.cover i hi with hc | hc | hc
+    · -- output of a transposition
+      obtain ⟨st, hst, hsti⟩ := List.mem_map.mp hc
+      have h2 := ht.outputs st hst e.1 e.2 (by rw [hsti]; exact hfi)
+      have hx := hw.excl₁ i hc
+      rw [hf4, hf3, h2]
+      · intro j hj p' d' hf' hpp
+        have := hinj _ _ _ _ _ _ hfi hf' hpp
+        subst this
+        exact hx.2 hj
+      · intro j hj p' d' hf' hpp
+        have := hinj _ _ _ _ _ _ hfi hf' hpp
+        subst this
+        exact hx.1 hj
+    · exact ha4 i hc e.1 e.2 hfi
+    · rw [hf4, ha3 i hc e.1 e.2 hfi]
+      intro j hj p' d' hf' hpp
+      have := hinj _ _ _ _ _ _ hfi hf' hpp
+      subst this
+      exact hw.excl₂ i hj hc
+  -- the new symlinks: each of them finds nothing or the old symlink at its path (`NKC`)
+  obtain ⟨t₅, h5, hI5, hs5, hf5⟩ := ensureSymlinks_spec new.symlinks t₄ hI4 hn.symlinks_nodup (by
+    intro e he'
+    have hes : e.1 ∈ new.symlinks.map (·.1) := List.mem_map.mpr ⟨e, he', rfl⟩
+    have hep : e.1 ∈ pathsOf new := mem_pathsOf.mpr (Or.inr (Or.inl hes))
+    refine ⟨(he.plain_of_new hn hep).sameNF hnf14, ?_⟩
+    have hnd : e.1 ∉ new.dirs := fun h => hn.dir_not_symlink h hes
+    have hnf : e.1 ∉ new.files.map (·.1) := hn.symlink_not_file hes
+    have hof : e.1 ∉ old.files.map (·.1) := fun h => (hk.old_file ho hn h).2 hes
+    rw [h14 _ hof hnf, he.other _ hnd]
+    by_cases hqo : e.1 ∈ pathsOf old
+    · obtain ⟨e', he'1, he'2⟩ := List.mem_map.mp (hk.symlink ho hn hes hqo)
+      right
+      refine ⟨e'.2, ?_⟩
+      rw [← he'2]
+      exact get_symlink_treeOfBuild ho he'1
+    · exact Or.inl (get_none_treeOfBuild (hn.ne hep) hqo))
+  have h45 : ∀ q, q ∉ pathsOf new → t₅.get q = t₄.get q :=
+    fun q hq => hf5 q (fun h => hq (mem_pathsOf.mpr (Or.inr (Or.inl h))))
+  have hpre : PreGhost old new t₅ := by
+    refine ⟨hI5, ?_, ?_, ?_, ?_⟩
     · intro p hp
       rcases mem_pathsOf.mp hp with hd | hs | hf
-      · rw [get_dir_treeOfBuild hn hd]
+      · rw [get_dir_treeOfBuild hn hd, hf5 p (hn.dir_not_symlink hd)]
         have := hnf14 p
         rw [he.dirs p hd] at this
         exact nf_eq_dir.mp this
       · obtain ⟨e, he1, he2⟩ := List.mem_map.mp hs
         rw [← he2, get_symlink_treeOfBuild hn (p := e.1) (d := e.2) he1]
-        have := hnf14 e.1
-        rw [he.symlinks e he1] at this
-        exact nf_eq_symlink.mp this
+        exact hs5 e he1
       · obtain ⟨e, he1, he2⟩ := List.mem_map.mp hf
-        obtain ⟨i, hi, hie⟩ := List.mem_iff_getElem.mp he1
-        have hfi : new.files[i]? = some (e.1, e.2) := by
-          rw [List.getElem?_eq_getElem hi, hie]
-        rw [← he2, get_file_treeOfBuild hn (p := e.1) (d := e.2) he1]
-        rcases hw.cover i hi with hc | hc | hc
-        · -- output of a transposition
-          obtain ⟨st, hst, hsti⟩ := List.mem_map.mp hc
-          have h2 := ht.outputs st hst e.1 e.2 (by rw [hsti]; exact hfi)
-          have hx := hw.excl₁ i hc
-          rw [hf4, hf3, h2]
-          · intro j hj p' d' hf' hpp
-            have := hinj _ _ _ _ _ _ hfi hf' hpp
-            subst this
-            exact hx.2 hj
-          · intro j hj p' d' hf' hpp
-            have := hinj _ _ _ _ _ _ hfi hf' hpp
-            subst this
-            exact hx.1 hj
-        · exact ha4 i hc e.1 e.2 hfi
-        · rw [hf4, ha3 i hc e.1 e.2 hfi]
-          intro j hj p' d' hf' hpp
-          have := hinj _ _ _ _ _ _ hfi hf' hpp
-          subst this
-          exact hw.excl₂ i hj hc
+        rw [hf5 p (fun h => hn.symlink_not_file h hf), ← he2,
+          get_file_treeOfBuild hn (p := e.1) (d := e.2) he1]
+        exact hfiles4 e he1
     · intro q hq0 hqn hqo
-      have hqf : q ∉ new.files.map (·.1) := fun h => hqn (mem_pathsOf.mpr (Or.inr (Or.inr h)))
-      have hnotfile : ∀ (i : Nat) (p : Path) (d : List Byte), new.files[i]? = some (p, d) → q ≠ p := by
-        intro i p d hf hqp
-        apply hqf
-        rw [hqp]
-        exact List.mem_map.mpr ⟨_, mem_files_of_getElem? hf, rfl⟩
-      rw [hf4 q (fun i _ p d hf => hnotfile i p d hf), hf3 q (fun i _ p d hf => hnotfile i p d hf),
-        ht.frame q (fun h => hqo (mem_pathsOf.mpr (Or.inr (Or.inr h)))) hqf,
-        he.other q (fun h => hqn (mem_pathsOf.mpr (Or.inl h)))
-          (fun h => hqn (mem_pathsOf.mpr (Or.inr (Or.inl h))))]
+      rw [h45 q hqn, h14 q (fun h => hqo (mem_pathsOf.mpr (Or.inr (Or.inr h))))
+          (fun h => hqn (mem_pathsOf.mpr (Or.inr (Or.inr h)))),
+        he.other q (fun h => hqn (mem_pathsOf.mpr (Or.inl h)))]
       exact get_none_treeOfBuild hq0 hqo
     · intro q0 hq0o _ _
       intro j hj
       by_cases hj0 : j = 0
-      · subst hj0; simpa using isDir_nil t₄
+      · subst hj0; simpa using isDir_nil t₅
       have hq : q0.take j ∈ old.dirs := ho.parents _ hq0o j (by omega) hj
       generalize q0.take j = q at hq
       have hqo : q ∈ pathsOf old := mem_pathsOf.mpr (Or.inl hq)
+      have hqs : q ∉ new.symlinks.map (·.1) := fun hs =>
+        ho.dir_not_symlink hq (hk.symlink ho hn hs hqo)
       have h1 : t₁.get q = some .dir := by
         by_cases hqn : q ∈ new.dirs
         · exact he.dirs q hqn
         · rw [he.other q hqn]
-          · exact get_dir_treeOfBuild ho hq
-          · intro hs
-            exact ho.dir_not_symlink hq (hk.symlink ho hn hs hqo)
+          exact get_dir_treeOfBuild ho hq
       have := hnf14 q
       rw [h1] at this
+      simp only [IsDir]
+      rw [hf5 q hqs]
       exact nf_eq_dir.mp this
-    · intro q hqo _ hqd hd4
+    · intro q hqo hqn hqd hd5
+      rw [h45 q hqn] at hd5
       have h1 : t₁.get q = some .dir := by
         have := hnf14 q
-        rw [hd4] at this
+        rw [hd5] at this
         exact nf_eq_dir.mp this.symm
-      by_cases hqn : q ∈ new.dirs
-      · exact hqd (hk.dir ho hqn hqo)
-      · by_cases hqs : q ∈ new.symlinks.map (·.1)
-        · obtain ⟨e, he1, he2⟩ := List.mem_map.mp hqs
-          rw [← he2, he.symlinks e he1] at h1
-          cases h1
-        · rw [he.other q hqn hqs] at h1
-          rcases mem_pathsOf.mp hqo with h | h | h
-          · exact hqd h
-          · obtain ⟨e, he1, he2⟩ := List.mem_map.mp h
-            rw [← he2, get_symlink_treeOfBuild ho (p := e.1) (d := e.2) he1] at h1
-            cases h1
-          · obtain ⟨e, he1, he2⟩ := List.mem_map.mp h
-            rw [← he2, get_file_treeOfBuild ho (p := e.1) (d := e.2) he1] at h1
-            cases h1
-  obtain ⟨t₅, h5, hI5, hg5⟩ := deleteGhosts_spec ho hn hpre
-  exact ⟨t₃, t₄, t₅, by rw [applyMoves_eq]; exact h3, by rw [applyOverlays_eq]; exact h4, h5, hI5, hg5⟩
+      rw [he.other q (fun h => hqn (mem_pathsOf.mpr (Or.inl h)))] at h1
+      rcases mem_pathsOf.mp hqo with h | h | h
+      · exact hqd h
+      · obtain ⟨e, he1, he2⟩ := List.mem_map.mp h
+        rw [← he2, get_symlink_treeOfBuild ho (p := e.1) (d := e.2) he1] at h1
+        cases h1
+      · obtain ⟨e, he1, he2⟩ := List.mem_map.mp h
+        rw [← he2, get_file_treeOfBuild ho (p := e.1) (d := e.2) he1] at h1
+        cases h1
+  obtain ⟨t₆, h6, hI6, hg6⟩ := deleteGhosts_spec ho hn hpre
+  exact ⟨t₃, t₄, t₅, t₆, by rw [applyMoves_eq]; exact h3, by rw [applyOverlays_eq]; exact h4, h5, h6,
+    hI6, hg6⟩
 
 
 /-! ### stages A and B: no transpositions -/
@@ -1160,7 +1161,7 @@ theorem commit_notransp {old new : Build} {w : Work} (ho : BWF old) (hn : BWF ne
     (hw : WOK old new w) (hT : w.transpositions = []) :
     ∃ t', commit old new w [] [] (treeOfBuild old) = .ok t' ∧ TInv t' ∧
       ∀ p, t'.get p = (treeOfBuild new).get p := by
-  obtain ⟨t₁, h1, he⟩ := ensureAll_spec ho hn hk
+  obtain ⟨t₁, h1, he⟩ := ensureDirsPhase_spec ho hn hk
   have ht : Transposed old new w t₁ t₁ := by
     refine ⟨he.inv, SameNF.refl _, ?_, ?_, fun _ _ _ => rfl⟩
     · intro st hst
@@ -1173,11 +1174,11 @@ theorem commit_notransp {old new : Build} {w : Work} (ho : BWF old) (hn : BWF ne
       have hpn : p ∈ new.files.map (·.1) := List.mem_map.mpr ⟨_, mem_files_of_getElem? hf, rfl⟩
       obtain ⟨e, he1, he2⟩ := List.mem_map.mp hp'
       refine ⟨e.2, ?_⟩
-      rw [he.other p (fun h => hn.dir_not_file h hpn) (fun h => hn.symlink_not_file h hpn), ← he2]
+      rw [he.other p (fun h => hn.dir_not_file h hpn), ← he2]
       exact get_file_treeOfBuild ho (p := e.1) (d := e.2) he1
-  obtain ⟨t₃, t₄, t₅, h3, h4, h5, hI5, hg5⟩ := finish_spec ho hn hk hw he ht
-  refine ⟨t₅, ?_, hI5, hg5⟩
-  simp only [commit, bind, Except.bind, h1, applyTranspositions_nil old new w hT, h3, h4, h5]
+  obtain ⟨t₃, t₄, t₅, t₆, h3, h4, h5, h6, hI6, hg6⟩ := finish_spec ho hn hk hw he ht
+  refine ⟨t₆, ?_, hI6, hg6⟩
+  simp only [commit, bind, Except.bind, h1, applyTranspositions_nil old new w hT, h3, h4, h5, h6]
 
 
 /-! ### stage C: temporary names -/
@@ -2408,17 +2409,15 @@ theorem flat_groups_nodup {ts : List Transpo} (hts : (ts.map (·.outputPath)).No
       rw [hx.2] at hy2
       exact hnd.1 hy2
 
-theorem Ensured.oldDir {old new : Build} (ho : BWF old) (hn : BWF new) (hk : NKC old new) {t₁ : Tree}
+/-- an old directory is still a directory after `ensureDirs` (whatever kinds change) -/
+theorem Ensured.oldDir {old new : Build} (ho : BWF old) {t₁ : Tree}
     (he : Ensured new (treeOfBuild old) t₁) {q : Path} (hq : q ∈ old.dirs) : t₁.get q = some .dir := by
-  have hqo : q ∈ pathsOf old := mem_pathsOf.mpr (Or.inl hq)
   by_cases hqn : q ∈ new.dirs
   · exact he.dirs q hqn
   · rw [he.other q hqn]
-    · exact get_dir_treeOfBuild ho hq
-    · intro hs
-      exact ho.dir_not_symlink hq (hk.symlink ho hn hs hqo)
+    exact get_dir_treeOfBuild ho hq
 
-/-- an old regular file is still there, with its old content, after `ensureAll` -/
+/-- an old regular file is still there, with its old content, after `ensureDirs` -/
 theorem Ensured.oldFile {old new : Build} (ho : BWF old) (hn : BWF new) (hk : NKC old new) {t₁ : Tree}
     (he : Ensured new (treeOfBuild old) t₁) {p : Path} {d : List Byte} (hp : (p, d) ∈ old.files) :
     Plain t₁ p ∧ t₁.get p = some (.file d) := by
@@ -2428,12 +2427,12 @@ theorem Ensured.oldFile {old new : Build} (ho : BWF old) (hn : BWF new) (hk : NK
   refine ⟨⟨ho.ne hpo, ?_, fun h => ho.nodd hpo (mem_of_mem_dropLast h)⟩, ?_⟩
   · rcases ho.parent_mem hpo with h0 | h0
     · rw [h0]; exact isDir_nil _
-    · exact he.oldDir ho hn hk h0
-  · rw [he.other p h1 h2]
+    · exact he.oldDir ho h0
+  · rw [he.other p h1]
     exact get_file_treeOfBuild ho hp
 
 /-- a temporary name that is not a path of either build (what the skip loop guarantees) is a free slot after
-    `ensureAll` -/
+    `ensureDirs` -/
 theorem Ensured.slot_of_temp {old new : Build} (hn : BWF new) {t₁ : Tree}
     (he : Ensured new (treeOfBuild old) t₁) {p : Path} (hp : p ∈ new.files.map (·.1)) {k : Nat}
     (hnot : seedName p k ∉ pathsOf old ++ pathsOf new) :
@@ -2443,8 +2442,7 @@ theorem Ensured.slot_of_temp {old new : Build} (hn : BWF new) {t₁ : Tree}
   have hpl := he.plain_of_new hn hpn
   simp only [List.mem_append, not_or] at hnot
   have hg : t₁.get (seedName p k) = none := by
-    rw [he.other _ (fun h => hnot.2 (mem_pathsOf.mpr (Or.inl h)))
-      (fun h => hnot.2 (mem_pathsOf.mpr (Or.inr (Or.inl h))))]
+    rw [he.other _ (fun h => hnot.2 (mem_pathsOf.mpr (Or.inl h)))]
     exact get_none_treeOfBuild (seedName_ne_nil hne k) hnot.1
   refine ⟨⟨⟨seedName_ne_nil hne k, ?_, ?_⟩, by rw [hg]; rfl⟩, hg⟩
   · rw [seedName_dropLast hne]; exact hpl.parent
@@ -2858,11 +2856,11 @@ theorem commit_spec {old new : Build} {w : Work} (ho : BWF old) (hn : BWF new) (
     (h₁ : o₁.Perm (srcsOf old new w)) (h₂ : o₂.Perm (srcsOf old new w)) :
     ∃ t', commit old new w o₁ o₂ (treeOfBuild old) = .ok t' ∧ TInv t' ∧
       ∀ p, t'.get p = (treeOfBuild new).get p := by
-  obtain ⟨t₁, e1, he⟩ := ensureAll_spec ho hn hk
+  obtain ⟨t₁, e1, he⟩ := ensureDirsPhase_spec ho hn hk
   obtain ⟨t₂, e2, ht⟩ := transpositions_spec ho hn hk hw h₁ h₂ he
-  obtain ⟨t₃, t₄, t₅, e3, e4, e5, hI5, hg5⟩ := finish_spec ho hn hk hw he ht
-  refine ⟨t₅, ?_, hI5, hg5⟩
-  simp only [commit, bind, Except.bind, e1, e2, e3, e4, e5]
+  obtain ⟨t₃, t₄, t₅, t₆, e3, e4, e5, e6, hI6, hg6⟩ := finish_spec ho hn hk hw he ht
+  refine ⟨t₆, ?_, hI6, hg6⟩
+  simp only [commit, bind, Except.bind, e1, e2, e3, e4, e5, e6]
 
 
 end Wharf.Commit
